@@ -31,6 +31,9 @@ def runCnt (c : Counter) : List String → List String
     else if o == "f" then
       let c' := { c with nodes := [] }
       showNodes c'.nodes :: runCnt c' rest
+    else if o == "F" then
+      -- (c19.share) another connection to the same backend, which shares the counter, is stopped: nothing changes for this one
+      showNodes c.nodes :: runCnt c rest
     else ["bad-op"]
 
 def parseHots (s : String) (withLut : Bool) : Option (List (String × Hot)) :=
@@ -90,6 +93,14 @@ def handle (kind : String) (args : List String) (impl : String) : String :=
       let sorted := rows.foldr (fun x acc => (acc.takeWhile (fun y => y < x)) ++ x :: (acc.dropWhile (fun y => y < x))) []
       let m := if sorted.isEmpty then "-" else ",".intercalate sorted
       verdict impl m m
+  | "c19.share", capS :: ops =>
+    -- the counter of a backend is shared by the connections to it: the one that is still open keeps counting exactly
+    match capS.toNat? with
+    | some cap =>
+      let outs := runCnt { cap := cap, nodes := [] } ops
+      let m := if outs.isEmpty then "-" else "|".intercalate outs
+      verdict impl m m
+    | none => "bad-op"
   | "c19.cnt", capS :: ops =>
     match capS.toNat? with
     | some cap =>
